@@ -343,3 +343,34 @@ Theorem C02_source_scan_row : forall fdiv idx chrom (v : option Q) e ts k hapx,
     (match v with Some q => scan_loop fdiv q e k r (enumerate_from 0 ts) | None => 0 end)
   = scan_row fdiv v e ts k r.
 Proof. exact Proofs.FnCallScanRow.source_scan_row. Qed.
+
+(* ---- [loop ties e1] source tie of do_call's last calling step (Gen/FnCallFinish.v fn_finish: the WHOLE statement
+   `if method != "none": outarr["cn"] = absolutes.round().astype("int"); if "baf" in outarr: <allelic split>`, per row,
+   regenerated from the Python source on every run): it is cn = round-half-even(absolutes) and, exactly when the table has
+   a baf column, `alleles` of that cn; nothing for method "none" ... *)
+From CNV Require Gen.FnCallFinish Proofs.FnCallFinish.
+Theorem C02_source_finish : forall m a has_baf baf,
+  Gen.FnCallFinish.fn_finish m a has_baf baf
+  = if String.eqb m "none" then (0, None, None)
+    else let cn := round_he a in
+         let '(c1, c2) := if has_baf then alleles a baf cn else (None, None) in (cn, c1, c2).
+Proof. exact Proofs.FnCallFinish.fn_finish_eq. Qed.
+
+(* ... which IS the model's dc_finish (the function do_call_row ends in) for every method that runs it ... *)
+Theorem C02_source_finish_model : forall m ratio v1 a has_baf b,
+  String.eqb m "none" = false ->
+  let '(cn, c1, c2) := Gen.FnCallFinish.fn_finish m a has_baf b in
+  dc_finish ratio v1 a has_baf b
+  = mk_dc_out ratio v1 (Some a) (Some cn) (if has_baf then b else None) (if has_baf then Some (c1, c2) else None).
+Proof. exact Proofs.FnCallFinish.source_finish. Qed.
+
+(* ... so the threshold row of do_call is the generated statement applied to the scanned copy number *)
+Theorem C02_source_finish_threshold : forall k purity hapx female build ts variants with_baf first row,
+  let '(v1, e1, _, ratio) := dc_purity_step MThreshold k purity hapx female build first row in
+  let a := inject_Z (thr_cn v1 e1 ts k (ref_pure (d_chrom row) k hapx)) in
+  let has_baf := with_baf || variants in
+  let b := dc_baf purity variants (d_baf row) in
+  let '(cn, c1, c2) := Gen.FnCallFinish.fn_finish "threshold" a has_baf b in
+  do_call_row MThreshold k purity hapx female build ts variants with_baf first row
+  = Some (mk_dc_out ratio v1 (Some a) (Some cn) (if has_baf then b else None) (if has_baf then Some (c1, c2) else None)).
+Proof. exact Proofs.FnCallFinish.source_finish_row_threshold. Qed.
